@@ -114,6 +114,10 @@ def _gen_random(rng, i, kafka=False):
       steps.append(['req', nr[0], rng.choice([0, 0, 23, 53, 107, 503])])
     elif k < 0.50:
       steps.append(['reply', rng.choice([0, 0, 1, 2, 5])])
+    elif k < 0.53 and kind in ('mux', 'kafka'):
+      steps.append(['replyas', rng.choice([0, 0, 1, 2]), rng.choice([-128, 127, -128, 127, -2])])
+    elif k < 0.545:
+      steps.append(['stall', rng.choice([50, 200, 800])])
     elif k < 0.56:
       steps.append(['stepq', rng.randint(1, 5)])
     elif k < 0.74:
@@ -140,6 +144,7 @@ def _gen_longrun(rng):
   """Many request/reply rounds on one mux connection: tags must be recycled (C11.bounded)."""
   steps = [['open'], ['adv', 20]]
   r = 0
+  errtype = rng.choice([None, -128, 127, 127])
   for _ in range(rng.randint(40, 120)):
     k = rng.randint(1, 4)
     for _ in range(k):
@@ -147,7 +152,10 @@ def _gen_longrun(rng):
       steps.append(['req', r, rng.choice([0, 0, 0, 53])])
     steps.append(['adv', 10])
     for _ in range(k):
-      steps.append(['reply', rng.randint(0, 3)])
+      if errtype is not None and rng.random() < 0.5:
+        steps.append(['replyas', rng.randint(0, 3), errtype])
+      else:
+        steps.append(['reply', rng.randint(0, 3)])
     steps.append(['adv', rng.choice([10, 100])])
     if rng.random() < 0.15:
       steps.append(['frame', -2, rng.choice([1, 2, 3, 5, 9])])
@@ -165,6 +173,17 @@ def cases(prop, tier, seed):
     n = 900 if tier == 'quick' else 20000
     for _ in range(20 if tier == 'quick' else 300):
       out.append(_gen_longrun(rng))
+  if prop == 'C11':
+    for stall in (200, 800):
+      for T in (53, 107, 503):
+        for gap in (10, 100, 300, 900):
+          for late in (0, 1):
+            steps = [['open'], ['adv', 20], ['req', 1, 0], ['adv', 10], ['reply', 0], ['adv', 10],
+                     ['stall', stall], ['req', 2, T], ['adv', gap], ['req', 3, 0], ['req', 4, T], ['adv', 1000]]
+            if late:
+              steps += [['reply', 0], ['reply', 0], ['adv', 10]]
+            steps += [['req', 5, 0], ['adv', 10], ['reply', 2], ['reply', 1], ['reply', 0], ['adv', 100]]
+            out.append({'kind': 'mux', 'fault_at': {}, 'plans': [['ok', 0]], 'steps': steps, 'rseed': stall + gap})
   for i in range(n):
     out.append(_gen_random(rng, i, kafka=(prop == 'C11')))
   return out
@@ -356,6 +375,20 @@ def run_case(script):
       un = [p for p in peer.unanswered() if not p.conn.closed and p.reply is not None]
       if un:
         peer.release(un[op[1] % len(un)], payload=peers.tbin_encode_appexc('hi', 'boom'))
+    elif k == 'replyas':
+      # the peer answers an outstanding request with another reply type (Rerr -128, legacy Rerr 127)
+      un = [p for p in peer.unanswered() if not p.conn.closed and p.reply is not None]
+      if un and kind in ('mux', 'kafka'):
+        p = un[op[1] % len(un)]
+        if kind == 'kafka' or op[2] == -2:
+          peer.release(p)
+        else:
+          p.answered = True
+          peer.send_frame(p.conn, op[2], p.tag, b'server error')
+    elif k == 'stall':
+      for c in net.conns:
+        if c.connected and not c.closed:
+          c.stall_until = max(c.stall_until, loop.now() + op[1] / 1000.0)
     elif k == 'frame':
       live = [c for c in net.conns if c.connected and not c.closed]
       if live and kind in ('mux', 'kafka'):
